@@ -241,6 +241,10 @@ fn rand_numeral(rng: &mut Rng, ty: &str) -> Vec<u8> {
     let mut s = String::new();
     let neg = rng.chance(1, 3);
     let bound = if neg && absmin != "0" { absmin } else { max };
+    if rng.chance(1, 8) {
+        // wrap class: m * 2^bits ± small (a wrapping accumulator would return a small value)
+        return crate::gen_cnf::wrap_class_numeral(rng, false);
+    }
     let body = match rng.below(8) {
         0 => bound.clone(),
         1 => {
